@@ -180,6 +180,13 @@ package builder
 //@   | && (forall c *ast.CharClassMatcher :: {c.Ranges} c != nil ==> len(c.Ranges) % 2 == 0)
 //@   | && (forall c *ast.CharClassMatcher, k int :: {c.UnicodeClasses[k]} c != nil && 0 <= k && k < len(c.UnicodeClasses) ==> ClassKnown(c.UnicodeClasses[k]))
 //@ frameset Emit = all builder.err, all ActionExpr.FuncIx, all AndCodeExpr.FuncIx, all NotCodeExpr.FuncIx, all StateCodeExpr.FuncIx
+// an expression index, once assigned to a code-block node, stays (it names the node's method); indices only grow
+//@ pred IxKept(b *builder) bool = b.exprIndex >= old(b.exprIndex)
+//@   | && (forall a *ast.ActionExpr :: {a.FuncIx} old(a.FuncIx) != 0 ==> a.FuncIx == old(a.FuncIx))
+//@   | && (forall a *ast.AndCodeExpr :: {a.FuncIx} old(a.FuncIx) != 0 ==> a.FuncIx == old(a.FuncIx))
+//@   | && (forall a *ast.NotCodeExpr :: {a.FuncIx} old(a.FuncIx) != 0 ==> a.FuncIx == old(a.FuncIx))
+//@   | && (forall a *ast.StateCodeExpr :: {a.FuncIx} old(a.FuncIx) != 0 ==> a.FuncIx == old(a.FuncIx))
+//@ frameset EmitE = all builder.err, all builder.exprIndex, all builder.globalState, all builder.rangeTable, all ActionExpr.FuncIx, all AndCodeExpr.FuncIx, all NotCodeExpr.FuncIx, all StateCodeExpr.FuncIx
 //@ frameset EmitG = all builder.err, all builder.exprIndex, all builder.ruleName, all builder.globalState, all builder.rangeTable, all ActionExpr.FuncIx, all AndCodeExpr.FuncIx, all NotCodeExpr.FuncIx, all StateCodeExpr.FuncIx
 
 //@ func (b *builder) writeInit(init *ast.CodeBlock)
@@ -199,97 +206,135 @@ package builder
 //@   all-calls builder.writelnf [name-field C01] f == "\tname: %q," ==> len(args) == 1 && as(args[0], "string") == r.Name.Val
 //@   all-calls builder.writelnf [leader-field C08] f == "\tleader: %t," ==> len(args) == 1 && as(args[0], "bool") == r.Leader
 //@   all-calls builder.writelnf [lr-field C08 C06] f == "\tleftRecursive: %t," ==> len(args) == 1 && as(args[0], "bool") == r.LeftRecursive
+//@   before builder.writeExpr assert [rule-name C04] r != nil && r.Name != nil && b.ruleName == r.Name.Val && b.exprIndex == 0
 //@   must-call builder.writelnf [lr-emitted C08 C06] if r != nil && r.Name != nil && b.haveLeftRecursion then f == "\tleftRecursive: %t,"
 //@   must-call builder.writelnf [leader-emitted C08] if r != nil && r.Name != nil && b.haveLeftRecursion then f == "\tleader: %t,"
 //@   safety C13
 //@ func (b *builder) writeExpr(expr ast.Expression)
-//@   requires [ctx] b != nil && TreeWF() && CodeWF() && (expr == nil || IsExpr(expr))
-//@   modifies EmitG
+//@   requires [ctx] b != nil && TreeWF() && CodeWF() && (expr == nil || IsExpr(expr)) && b.exprIndex >= 0
+//@   modifies EmitE
+//@   ensures [ix-kept C04] IxKept(b)
 //@   safety C13
 
 //@ func (b *builder) writeActionExpr(act *ast.ActionExpr)
-//@   requires [ctx] b != nil && TreeWF() && CodeWF()
-//@   modifies EmitG
+//@   requires [ctx] b != nil && TreeWF() && CodeWF() && b.exprIndex >= 1
+//@   modifies EmitE
+//@   ensures [ix-kept C04] IxKept(b)
+// the method the node refers to is named after the current rule and the node's own index (writeFunc emits it
+// under the same name: one method per code block, C04)
+//@   all-calls builder.writelnf [run-field C04 C02] f == "\trun: (*parser).call%s," ==> len(args) == 1 && as(args[0], "string") == "on" + b.ruleName + itoa(act.FuncIx) && act.FuncIx != 0
+//@   must-call builder.writelnf [run-emitted C04] if act != nil then f == "\trun: (*parser).call%s,"
 //@   safety C13
 //@ func (b *builder) writeAndCodeExpr(and *ast.AndCodeExpr)
-//@   requires [ctx] b != nil && TreeWF() && CodeWF()
-//@   modifies EmitG
+//@   requires [ctx] b != nil && TreeWF() && CodeWF() && b.exprIndex >= 1
+//@   modifies EmitE
+//@   ensures [ix-kept C04] IxKept(b)
+// the method the node refers to is named after the current rule and the node's own index (writeFunc emits it
+// under the same name: one method per code block, C04)
+//@   all-calls builder.writelnf [run-field C04 C02] f == "\trun: (*parser).call%s," ==> len(args) == 1 && as(args[0], "string") == "on" + b.ruleName + itoa(and.FuncIx) && and.FuncIx != 0
+//@   must-call builder.writelnf [run-emitted C04] if and != nil then f == "\trun: (*parser).call%s,"
 //@   safety C13
 //@ func (b *builder) writeAndExpr(and *ast.AndExpr)
-//@   requires [ctx] b != nil && TreeWF() && CodeWF()
-//@   modifies EmitG
+//@   requires [ctx] b != nil && TreeWF() && CodeWF() && b.exprIndex >= 1
+//@   modifies EmitE
+//@   ensures [ix-kept C04] IxKept(b)
 //@   safety C13
 //@ func (b *builder) writeAnyMatcher(any *ast.AnyMatcher)
-//@   requires [ctx] b != nil && TreeWF() && CodeWF()
-//@   modifies EmitG
+//@   requires [ctx] b != nil && TreeWF() && CodeWF() && b.exprIndex >= 1
+//@   modifies EmitE
+//@   ensures [ix-kept C04] IxKept(b)
 //@   safety C13
 //@ func (b *builder) writeChoiceExpr(ch *ast.ChoiceExpr)
-//@   requires [ctx] b != nil && TreeWF() && CodeWF()
-//@   modifies EmitG
-//@   loop#1 invariant [ctx] b != nil && TreeWF() && CodeWF()
+//@   requires [ctx] b != nil && TreeWF() && CodeWF() && b.exprIndex >= 1
+//@   modifies EmitE
+//@   ensures [ix-kept C04] IxKept(b)
+//@   loop#1 invariant [ctx] b != nil && TreeWF() && CodeWF() && b.exprIndex >= 1 && IxKept(b)
 //@   safety C13
 //@ func (b *builder) writeLabeledExpr(lab *ast.LabeledExpr)
-//@   requires [ctx] b != nil && TreeWF() && CodeWF()
-//@   modifies EmitG
+//@   requires [ctx] b != nil && TreeWF() && CodeWF() && b.exprIndex >= 1
+//@   modifies EmitE
+//@   ensures [ix-kept C04] IxKept(b)
 //@   all-calls builder.writelnf [label-field C02] f == "\tlabel: %q," ==> len(args) == 1 && as(args[0], "string") == lab.Label.Val
 //@   safety C13
 //@ func (b *builder) writeNotCodeExpr(not *ast.NotCodeExpr)
-//@   requires [ctx] b != nil && TreeWF() && CodeWF()
-//@   modifies EmitG
+//@   requires [ctx] b != nil && TreeWF() && CodeWF() && b.exprIndex >= 1
+//@   modifies EmitE
+//@   ensures [ix-kept C04] IxKept(b)
+// the method the node refers to is named after the current rule and the node's own index (writeFunc emits it
+// under the same name: one method per code block, C04)
+//@   all-calls builder.writelnf [run-field C04 C02] f == "\trun: (*parser).call%s," ==> len(args) == 1 && as(args[0], "string") == "on" + b.ruleName + itoa(not.FuncIx) && not.FuncIx != 0
+//@   must-call builder.writelnf [run-emitted C04] if not != nil then f == "\trun: (*parser).call%s,"
 //@   safety C13
 //@ func (b *builder) writeNotExpr(not *ast.NotExpr)
-//@   requires [ctx] b != nil && TreeWF() && CodeWF()
-//@   modifies EmitG
+//@   requires [ctx] b != nil && TreeWF() && CodeWF() && b.exprIndex >= 1
+//@   modifies EmitE
+//@   ensures [ix-kept C04] IxKept(b)
 //@   safety C13
 //@ func (b *builder) writeOneOrMoreExpr(one *ast.OneOrMoreExpr)
-//@   requires [ctx] b != nil && TreeWF() && CodeWF()
-//@   modifies EmitG
+//@   requires [ctx] b != nil && TreeWF() && CodeWF() && b.exprIndex >= 1
+//@   modifies EmitE
+//@   ensures [ix-kept C04] IxKept(b)
 //@   safety C13
 //@ func (b *builder) writeRecoveryExpr(recover *ast.RecoveryExpr)
-//@   requires [ctx] b != nil && TreeWF() && CodeWF()
-//@   modifies EmitG
-//@   loop#1 invariant [ctx] b != nil && TreeWF() && CodeWF()
+//@   requires [ctx] b != nil && TreeWF() && CodeWF() && b.exprIndex >= 1
+//@   modifies EmitE
+//@   ensures [ix-kept C04] IxKept(b)
+//@   loop#1 invariant [ctx] b != nil && TreeWF() && CodeWF() && b.exprIndex >= 1 && IxKept(b)
 //@   all-calls builder.writelnf [label-field C14] f == "%q," ==> len(args) == 1 && exists k int :: 0 <= k && k < len(recover.Labels) && as(args[0], "string") == recover.Labels[k]
 //@   safety C13
 //@ func (b *builder) writeRuleRefExpr(ref *ast.RuleRefExpr)
-//@   requires [ctx] b != nil && TreeWF() && CodeWF()
-//@   modifies EmitG
+//@   requires [ctx] b != nil && TreeWF() && CodeWF() && b.exprIndex >= 1
+//@   modifies EmitE
+//@   ensures [ix-kept C04] IxKept(b)
 //@   all-calls builder.writelnf [name-field C01] f == "\tname: %q," ==> len(args) == 1 && as(args[0], "string") == ref.Name.Val
 //@   safety C13
 //@ func (b *builder) writeSeqExpr(seq *ast.SeqExpr)
-//@   requires [ctx] b != nil && TreeWF() && CodeWF()
-//@   modifies EmitG
-//@   loop#1 invariant [ctx] b != nil && TreeWF() && CodeWF()
+//@   requires [ctx] b != nil && TreeWF() && CodeWF() && b.exprIndex >= 1
+//@   modifies EmitE
+//@   ensures [ix-kept C04] IxKept(b)
+//@   loop#1 invariant [ctx] b != nil && TreeWF() && CodeWF() && b.exprIndex >= 1 && IxKept(b)
 //@   safety C13
 //@ func (b *builder) writeStateCodeExpr(state *ast.StateCodeExpr)
-//@   requires [ctx] b != nil && TreeWF() && CodeWF()
-//@   modifies EmitG
+//@   requires [ctx] b != nil && TreeWF() && CodeWF() && b.exprIndex >= 1
+//@   modifies EmitE
+//@   ensures [ix-kept C04] IxKept(b)
+// the method the node refers to is named after the current rule and the node's own index (writeFunc emits it
+// under the same name: one method per code block, C04)
+//@   all-calls builder.writelnf [run-field C04 C02] f == "\trun: (*parser).call%s," ==> len(args) == 1 && as(args[0], "string") == "on" + b.ruleName + itoa(state.FuncIx) && state.FuncIx != 0
+//@   must-call builder.writelnf [run-emitted C04] if state != nil then f == "\trun: (*parser).call%s,"
 //@   safety C13
 //@ func (b *builder) writeThrowExpr(throw *ast.ThrowExpr)
-//@   requires [ctx] b != nil && TreeWF() && CodeWF()
-//@   modifies EmitG
+//@   requires [ctx] b != nil && TreeWF() && CodeWF() && b.exprIndex >= 1
+//@   modifies EmitE
+//@   ensures [ix-kept C04] IxKept(b)
 //@   all-calls builder.writelnf [label-field C14] f == "\tlabel: %q," ==> len(args) == 1 && as(args[0], "string") == throw.Label
 //@   safety C13
 //@ func (b *builder) writeZeroOrMoreExpr(zero *ast.ZeroOrMoreExpr)
-//@   requires [ctx] b != nil && TreeWF() && CodeWF()
-//@   modifies EmitG
+//@   requires [ctx] b != nil && TreeWF() && CodeWF() && b.exprIndex >= 1
+//@   modifies EmitE
+//@   ensures [ix-kept C04] IxKept(b)
 //@   safety C13
 //@ func (b *builder) writeZeroOrOneExpr(zero *ast.ZeroOrOneExpr)
-//@   requires [ctx] b != nil && TreeWF() && CodeWF()
-//@   modifies EmitG
+//@   requires [ctx] b != nil && TreeWF() && CodeWF() && b.exprIndex >= 1
+//@   modifies EmitE
+//@   ensures [ix-kept C04] IxKept(b)
 //@   safety C13
 //@ func (b *builder) writeLitMatcher(lit *ast.LitMatcher)
-//@   requires [ctx] b != nil && TreeWF() && CodeWF()
-//@   modifies EmitG
+//@   requires [ctx] b != nil && TreeWF() && CodeWF() && b.exprIndex >= 1
+//@   modifies EmitE
+//@   ensures [ix-kept C04] IxKept(b)
 // the literal is stored lower-cased exactly when it is case-insensitive (the runtime lower-cases the input rune, not the literal)
 //@   all-calls builder.writelnf [val-field C01] f == "\tval: %q," ==> len(args) == 1 && as(args[0], "string") == ite(lit.IgnoreCase, lowerS(lit.Val), lit.Val)
 //@   all-calls builder.writelnf [ic-field C01] f == "\tignoreCase: %t," ==> len(args) == 1 && as(args[0], "bool") == lit.IgnoreCase
+//@   all-calls builder.writelnf [want-field C12] f == "\twant: %q," ==> len(args) == 1 && as(args[0], "string") == quoteS(lit.Val) + ite(lit.IgnoreCase, "i", "")
+//@   must-call builder.writelnf [want-emitted C12] if lit != nil then f == "\twant: %q,"
 //@   must-call builder.writelnf [val-emitted C01] if lit != nil then f == "\tval: %q,"
 //@   must-call builder.writelnf [ic-emitted C01] if lit != nil then f == "\tignoreCase: %t,"
 //@   safety C13
 //@ func (b *builder) writeCharClassMatcher(ch *ast.CharClassMatcher)
-//@   requires [ctx] b != nil && TreeWF() && CodeWF()
-//@   modifies EmitG
+//@   requires [ctx] b != nil && TreeWF() && CodeWF() && b.exprIndex >= 1
+//@   modifies EmitE
+//@   ensures [ix-kept C04] IxKept(b)
 // members are stored lower-cased exactly when the class is case-insensitive; the flags are the class's own;
 // the Basic Latin table is computed from the class's own members (C15)
 //@   all-calls builder.writelnf [ic-field C01 C15] f == "\tignoreCase: %t," ==> len(args) == 1 && as(args[0], "bool") == ch.IgnoreCase
@@ -302,12 +347,17 @@ package builder
 //@   loop#3 invariant [ctx] b != nil && ch != nil
 //@   safety C13
 //@ spec func lowerS(s string) string
+//@ spec func quoteS(s string) string
+//@ extern strconv.Quote(s string) (r string)
+//@   pure
+//@   ensures r == quoteS(s)
 //@ extern strings.ToLower(s string) (r string)
 //@   pure
 //@   ensures r == lowerS(s)
 
 //@ func (b *builder) writeRuleCode(rule *ast.Rule)
 //@   requires [ctx] b != nil && TreeWF() && CodeWF()
+//@   before builder.writeExprCode assert [rule-name C04] rule != nil && rule.Name != nil && b.ruleName == rule.Name.Val
 //@   modifies all builder.ruleName, all builder.argsStack, Emit
 //@   safety C13
 
@@ -355,6 +405,8 @@ package builder
 //@ func (b *builder) writeFunc(funcIx int, code *ast.CodeBlock, callTpl string, funcTpl string)
 //@   requires [ctx] b != nil && CodeWF()
 //@   modifies all builder.err
+// the method and its call wrapper are emitted under the name the grammar literal refers to (run-field above)
+//@   all-calls builder.writelnf [method-name C04 C02] (len(args) == 4 || len(args) == 2) && (len(args) == 4 ==> f == funcTpl && as(args[1], "string") == "on" + b.ruleName + itoa(funcIx)) && (len(args) == 2 ==> f == callTpl && as(args[0], "string") == "on" + b.ruleName + itoa(funcIx))
 //@   loop#1 invariant [ctx] b != nil && ix == len(b.argsStack) - 1 && ix >= 0
 //@   loop#2 invariant [ctx] b != nil && ix == len(b.argsStack) - 1 && ix >= 0
 //@   safety C13
